@@ -305,6 +305,65 @@ R1IV_TABLE = {
 }
 
 
+def _fsources(fg, bk, operand, fam):
+    """Field-based sources (Context / Circuit fields) an integer operand is a plain copy of."""
+    if operand["k"] == "const":
+        return {("lit", operand.get("v"))}
+    back = fg.backward(fg.operand_nodes(bk, operand), node_ok=lambda n: n[0] == "F" or fg.bodies[n[0]].owner == fam,
+                       edge_ok=lambda e: e.kind in ("copy", "ref", "base2field", "upvar", "cast", "field2whole"))
+    return {n for n in back if n[0] == "F"}
+
+
+def provably_in_range(S, bk, b, t):
+    """Small symbolic-length argument for `container[idx]`:
+       len(container) = N  where the container is allocated by vec![_; N] (type-matched alloc site)
+       idx < M             where idx is the counter of enumerate() over a vector received with
+                           validated length M, or an element of a range 0..M
+       and N, M are plain copies of the same Context/Circuit field."""
+    fg = S.fg
+    fam = b.owner
+    cont, idx = t["args"][0], t["args"][1]
+    if cont["k"] == "const" or idx["k"] == "const":
+        return None
+    cty = norm_ty(cont["p"]["ty"])
+    same_fam = lambda n: n[0] != "F" and fg.bodies[n[0]].owner == fam
+    cback = fg.backward(fg.operand_nodes(bk, cont), node_ok=same_fam, edge_ok=lambda e: secmod.struct_edge(e) or e.kind == "alias", local=True)
+    allocs = []
+    by_body = defaultdict(set)
+    for n in cback:
+        by_body[n[0]].add(n[1])
+    for kk, ls in by_body.items():
+        bb = fg.bodies[kk]
+        for bi, ct in bb.calls():
+            if ct["d"]["l"] in ls and any(x.endswith("vec::from_elem") for x in callee_names(ct)):
+                if norm_ty(ct["d"].get("ty", "")) == cty:
+                    allocs.append((kk, ct))
+    if len(allocs) != 1:
+        return None
+    n_src = _fsources(fg, allocs[0][0], allocs[0][1]["args"][1], fam)
+    iback = fg.backward(fg.operand_nodes(bk, idx), node_ok=same_fam, edge_ok=lambda e: secmod.struct_edge(e), local=False)
+    by_body = defaultdict(set)
+    for n in iback:
+        by_body[n[0]].add(n[1])
+    bounds = []
+    for kk, ls in by_body.items():
+        bb = fg.bodies[kk]
+        for bi, blk in enumerate(bb.blocks):
+            for st in blk["s"]:
+                if st["k"] == "assign" and st["p"]["l"] in ls and st["r"]["k"] == "agg" and st["r"].get("adt", "").startswith("core::ops::range::Range") and len(st["r"]["ops"]) == 2:
+                    bounds.append(_fsources(fg, kk, st["r"]["ops"][1], fam))
+        for s_ in S.recv_sites:
+            if s_.bk == kk and s_.term["d"]["l"] in ls and s_.kind == "recv_vec":
+                bounds.append(_fsources(fg, kk, s_.term["args"][3], fam))
+    bounds = [x for x in bounds if x]
+    if len(bounds) != 1:
+        return None
+    if n_src and n_src == bounds[0] and len(n_src) == 1 and list(n_src)[0][0] == "F":
+        f = list(n_src)[0]
+        return "%s.%s" % (f[1].rsplit("::", 1)[-1], f[2])
+    return None
+
+
 def rule_peer_controlled_sinks(S, res):
     """R1.iv: index sinks on own data whose execution depends on a peer-chosen Some/None."""
     fg = S.fg
@@ -327,6 +386,7 @@ def rule_peer_controlled_sinks(S, res):
     ext = set(fg.forward(list(all_comp), edge_ok=ext_edge, local=True, deep=True).keys())
     strict_comp = all_comp
     all_comp = ext
+    proven = []
     msg_types = [validated_types(s_)[1] or "" for s_ in S.recv_sites] + ["(bool, alloc::vec::Vec<polytune::mpc::data_types::Mac>, polytune::mpc::data_types::Label)"]
     found = {}
     for bk in cl:
@@ -372,6 +432,10 @@ def rule_peer_controlled_sinks(S, res):
             fn = b.owner.rsplit("::", 1)[-1]
             cty = norm_ty(t["args"][0]["p"]["ty"]) if t["args"][0]["k"] != "const" else "?"
             short = cty.replace("alloc::vec::", "").replace("core::option::", "").replace("polytune::mpc::data_types::", "")
+            proof = provably_in_range(S, bk, b, t)
+            if proof:
+                proven.append((fn, short, b, bi, proof))
+                continue
             found.setdefault((fn, "%s:%s" % (var, short)), (b, bi))
         # built-in slice / array indexing: Assert(BoundsCheck)
         for bi, blk in enumerate(b.blocks):
@@ -401,12 +465,14 @@ def rule_peer_controlled_sinks(S, res):
             fn = b.owner.rsplit("::", 1)[-1]
             short = norm_ty(cty).replace("alloc::vec::", "").replace("core::option::", "").replace("polytune::mpc::data_types::", "")
             found.setdefault((fn, "%s:[%s]" % (var, short)), (b, bi))
+    for (fn, short, b, bi, proof) in proven:
+        res.ok("R1.iv", "%s|%s[]@%s" % (fn, short, where(b, bi).rsplit(":", 1)[-1]), where(b, bi), "index in range: container is vec![_; n] and the index is bounded by the same n = %s" % proof)
     for (fn, var), (b, bi) in sorted(found.items()):
         if (fn, var) in R1IV_TABLE:
             res.ok("R1.iv", "%s|%s[]" % (fn, var), where(b, bi), "reviewed: " + R1IV_TABLE[(fn, var)])
         else:
             res.bad("R1.iv", "%s|%s[]" % (fn, var), "an index into own data `%s[..]` only runs when a peer chose to fill an optional slot; the site is not in the reviewed table (an honest peer's message shape may be what keeps the index in range)" % var, where(b, bi))
-    res.count("peer_controlled_index_sites", len(found))
+    res.count("peer_controlled_index_sites", len(found) + len(proven))
 
 
 ERR_TYPES = ("polytune::channel::Error", "polytune::mpc::faand::Error", "polytune::mpc::protocol::Error", "polytune::mpc::garble::Error",
